@@ -142,6 +142,29 @@ func (d *delit) rewriteStmt(s ast.Stmt) []ast.Stmt {
 				return []ast.Stmt{&ast.BlockStmt{List: out}}
 			}
 		}
+		// if A && <literal call> { S }  (no else)  ->  if A { if <literal call> { S } }: same evaluation order, and
+		// the inner statement has the form handled below
+		if x.Init == nil && x.Else == nil {
+			if be, isBin := x.Cond.(*ast.BinaryExpr); isBin && be.Op == token.LAND {
+				isLit := func(e ast.Expr) bool {
+					if u, isU := e.(*ast.UnaryExpr); isU && u.Op == token.NOT {
+						e = u.X
+					}
+					if p, isP := e.(*ast.ParenExpr); isP {
+						e = p.X
+					}
+					_, ok := d.candidate(e)
+					return ok
+				}
+				if isLit(be.X) || isLit(be.Y) {
+					d.done++
+					inner := &ast.IfStmt{Cond: be.Y, Body: x.Body}
+					x.Cond = be.X
+					x.Body = &ast.BlockStmt{List: []ast.Stmt{inner}}
+					return []ast.Stmt{x}
+				}
+			}
+		}
 		if x.Init == nil {
 			cond := x.Cond
 			neg := false
